@@ -77,6 +77,10 @@ type op struct {
 	// reopen after a simulated process death: what lies on disk between Close and the restart is changed
 	Tail int `json:"tail,omitempty"` // bytes appended to the current data file without an index record
 	Cut  int `json:"cut,omitempty"`  // bytes cut off the end of blockchain.new (k*136+j: k records + a torn one)
+	// datacut: the newest data file is truncated into the data of its DBlocks-th block from the end (1..3), of
+	// which DKeep bytes (modulo its stored length) remain; the index is left intact.  Excludes Tail/Cut.
+	DBlocks int `json:"dblocks,omitempty"`
+	DKeep   int `json:"dkeep,omitempty"`
 }
 
 type caseC16 struct {
@@ -114,6 +118,8 @@ type summary struct {
 	unindexedTail, appendAfterTail           bool
 	cutRecords, abortedLoads, twins          int
 	abortedMidway                            bool
+	dataCuts                                 int
+	addsAfterCutThenReopen                   bool
 }
 
 type runner struct {
@@ -133,6 +139,9 @@ type runner struct {
 	archived map[uint32]bool // data files that left the main directory (removed or moved to oldat/)
 	// a restart found the current data file longer than the indexed extent (appends must overwrite that tail)
 	tailPending bool
+	minIdx      uint32 // see mReopen
+	cutHappened bool   // a datacut fault dropped records (class adds_after_data_cut_then_reopen)
+	addAfterCut bool
 }
 
 func (r *runner) storedLen(b *mblk) int64 {
@@ -195,6 +204,12 @@ func (r *runner) mReopen() {
 			r.curPos = b.fpos + b.stored
 		}
 	}
+	// LoadBlockIndex switches to the data file of a record before it finds that the record's data is missing
+	// (datacut fault): when the first record of the newest file is dropped, that file stays the current one
+	if r.minIdx > r.curIdx {
+		r.curIdx, r.curPos = r.minIdx, 0
+	}
+	r.minIdx = 0
 	// generator health: would ignoring the invalid records move the current data file back (finding
 	// datfile-index-regression), and had that file already left the main directory?
 	var vIdx uint32
@@ -393,6 +408,9 @@ func (r *runner) add(s *blkSpec, trusted bool) {
 	r.queue = append(r.queue, b)
 	r.datToWr += uint64(len(raw))
 	r.sum.adds++
+	if r.cutHappened {
+		r.addAfterCut = true
+	}
 	if r.tailPending {
 		r.sum.appendAfterTail = true
 	}
@@ -519,6 +537,12 @@ func (r *runner) do(o op) error {
 		r.db.Idle()
 		r.mFlush()
 	case "reopen":
+		if o.DBlocks > 0 {
+			if err := r.dataCut(o.DBlocks, o.DKeep); err != nil {
+				return err
+			}
+			return r.reopenFault(o.Compress, o.Cache, 0, 0, 0)
+		}
 		return r.reopenFault(o.Compress, o.Cache, o.Tail, o.Cut, uint64(r.step))
 	case "abortedreopen":
 		return r.abortedReopen(o.N, o.Trusted, o.Compress, o.Cache)
@@ -627,6 +651,51 @@ func (r *runner) datName(idx uint32) string {
 	return fn
 }
 
+// dataCut: Close, then the tail of the newest data file is lost while the index records made it to the disk (the
+// situation LoadBlockIndex handles since ac6f9f64: it stops at the first record whose data lies beyond the data
+// file).  The block cut into and everything indexed after it are not stored any more - they must never come
+// back at any later restart - everything before reads back as before.
+func (r *runner) dataCut(nblocks, keep int) error {
+	r.db.Close()
+	r.mFlush()
+	r.db = nil
+	n := len(r.records)
+	if n == 0 {
+		return nil
+	}
+	lastFile := r.records[n-1].file
+	cnt := 0
+	for i := n - 1; i >= 0 && r.records[i].file == lastFile; i-- {
+		cnt++
+	}
+	if nblocks > cnt {
+		nblocks = cnt
+	}
+	t := n - nblocks
+	rec := r.records[t]
+	newSize := rec.fpos + int64(keep)%rec.stored
+	fn := r.datName(lastFile)
+	fi, err := os.Stat(fn)
+	if err != nil || fi.Size() < r.records[n-1].fpos+r.records[n-1].stored {
+		return fmt.Errorf("data file %d is shorter than the records written to it", lastFile)
+	}
+	if err := os.Truncate(fn, newSize); err != nil {
+		return fmt.Errorf("harness: %v", err)
+	}
+	for _, b := range r.records[t:] {
+		b.lost = true
+	}
+	r.records = r.records[:t]
+	r.minIdx = lastFile
+	r.sum.dataCuts++
+	r.cutHappened = true
+	if newSize > rec.fpos {
+		r.tailPending = true
+		r.sum.unindexedTail = true
+	}
+	return nil
+}
+
 // reopenFault: Close, then (optionally) leave the files the way a process death inside writeOne leaves them -
 // the index file loses its last records (cut = k*136+j bytes: k whole records and a torn one, their data stays
 // in the data file) and/or the current data file gets tail bytes that no index record speaks about (data written,
@@ -707,6 +776,9 @@ func (r *runner) reopenFault(compress bool, cache, tail, cut int, salt uint64) e
 		}
 	}
 	r.sum.reopens++
+	if r.addAfterCut {
+		r.sum.addsAfterCutThenReopen = true
+	}
 	if r.sum.invalidOnDisk {
 		r.sum.invalidReopened = true
 	}
@@ -884,6 +956,9 @@ func genOp(t *rapid.T, thorough bool) op {
 		case 5: // both
 			o.Tail = rapid.IntRange(1, 5000).Draw(t, "tail")
 			o.Cut = uni(t, "cutrecs", 3)*136 + uni(t, "cutbytes", 136)
+		case 6, 7: // the tail of the newest data file is lost, the index records survived
+			o.DBlocks = 1 + uni(t, "dblocks", 3)
+			o.DKeep = rapid.IntRange(0, 70000).Draw(t, "dkeep")
 		}
 	case "idle":
 	default:
@@ -968,6 +1043,12 @@ func TestBlockDBModel(t *testing.T) {
 		}
 		if sum.abortedMidway {
 			r.Class("aborted_index_load")
+		}
+		if sum.dataCuts > 0 {
+			r.Class("data_file_cut_below_index")
+		}
+		if sum.addsAfterCutThenReopen && len(c.Ops) > 0 {
+			r.Class("adds_after_data_cut_then_reopen")
 		}
 		if sum.twins > 0 {
 			r.Class("twin_after_queued_invalid")
